@@ -261,6 +261,42 @@ PROPS = {
         "assumptions": ROUTER_ASSUMPTIONS,
         "min_outcomes": 5,
     },
+    "C15": {'level': 'model_checking',
+     'technique': 'explicit enumeration of applications (route sets x method assignments x handler signatures from a compile-time catalogue x declaration shapes x '
+                  'registration orders x tag / JWT / BasicAuth placements); for each one the document produced by the real generator is compared with the route '
+                  'table computed from the description, every embedded schema is validated under JSON Schema 2020-12, and one request per documented operation is '
+                  'built from the document and dispatched on the real router of the same application',
+     'engine': 'vmc + lib/c15_runner.py (python3-vt jsonschema judge for the dumped schema objects)',
+     'custom_runner': 'c15_runner',
+     'level_text': 'Bounded exhaustive exploration of the configuration space (programs are fixed: a catalogue of 28 handler signatures compiled into the harness, '
+                   'each with a hand-written expectation record): (A) every catalogue handler on every single route of depth <=3 over {a, b, :p, :q} whose param '
+                   "count is >= the handler's, flat and under a first-segment mount, plus all 31 method subsets; (B) route pairs (thorough: also triples) x method "
+                   'assignments x all C01 declaration shapes (flat, split, mounts with static and param prefixes, nested, inline, split-mount) x registration '
+                   'orders, handlers assigned by deterministic rotation; (C) route sets of size <=2 x shapes x root / child / local placements of Tag, JWT and '
+                   'BasicAuth. states = applications whose document was generated and examined; transitions = document rules checked + requests sent + distinct '
+                   'schema objects validated; every document comes from the real Ohkami::__openapi_document_bytes__ and every request runs through the real '
+                   'Request::read / Router::handle / Response::send of the same Ohkami.',
+     'level_note': 'Trusted: the expectation records of the catalogue (written from the documentation of extractors and return types; a self-check turns a record '
+                   'that contradicts the status a handler really answers into exit 2), the route table / fang scope computed from the description, the '
+                   '`jsonschema` package for Draft 2020-12, the independent HTTP response parser. Not demanded (statement silent): tags, operationId, '
+                   'descriptions, `required` of request bodies, schema *contents* (C16), parameter types (only used to build requests). Outside the quantifier '
+                   '(skipped and counted): descriptions the framework rejects at registration, the same route twice modulo param names for one method, handlers '
+                   'behind both a JWT and a BasicAuth fang. Security of a handler that sits on the mount node of a foreign application is only checked for '
+                   'document <-> run-time consistency (counted as ambiguous). Not covered: other segment texts, route sets > 3, depth > 3, Dir mounts, custom '
+                   '`get_token_by` schemes, handler signatures outside the catalogue.',
+     'jobs': {'quick': 8, 'thorough': 16},
+     'wall_cap_s': {'quick': 35, 'thorough': 660},
+     'assumptions': ['features rt_tokio,sse,openapi on x86-64 Linux; other runtimes are not built',
+                     'the harness build uses opt-level 2 with debug-assertions and overflow-checks on (profile `verif`), hooks enabled by --cfg ohkami_verif',
+                     'values outside the stated alphabets / bounds are not covered (DESIGN.md section 9)',
+                     'applications are assembled at run time through the add-only hook DynRouting (same register_handlers / merge_another / Dir code a tuple of '
+                     'routing items goes through)',
+                     "requests are delivered as one read on a fresh connection (segmentation is C06's concern)",
+                     'handler signatures are a fixed compile-time catalogue (28 entries); `programs` in the quantifier means this catalogue',
+                     'a request `built from the document` fills {p} with a value of the documented type, sends required query parameters and the minimal body of '
+                     "required members, and answers the first documented security requirement (token from the fang's own issue / the configured Basic pair)",
+                     'media types are compared without parameters (`text/plain; charset=UTF-8` = `text/plain`)'],
+     'min_outcomes': 8},
     "C16": {'level': 'exploration',
      'technique': 'exhaustive enumeration of type definitions (programs) from a bounded attribute grammar, compiled against the current tree; per type every '
                   'generated value and every key-deletion probe is compared with the derived schema (serde itself is the oracle, jsonschema Draft 2020-12 '
@@ -356,6 +392,8 @@ PROPS = {
 HOOK_COMMITS = ["4846d14", "4c64919", "461eacc"]
 
 ENGINES = [
+    {"name": "openapi_mc", "path": "/verif/lib/c15_runner.py", "serves_properties": ["C15"],
+     "kind_free_text": "python plug-in of ./check around the vmc engine harness/src/engines/c15.rs: runs the workers (applications assembled at run time from a compile-time handler catalogue, documents from the real __openapi_document_bytes__), then validates every distinct dumped schema under JSON Schema 2020-12 with jsonschema (python3-vt, lib/c15_check.py)"},
     {"name": "schema_mc", "path": "/verif/lib/c16_runner.py", "serves_properties": ["C16"],
      "kind_free_text": "python plug-in of ./check: enumerates type definitions from a bounded attribute grammar (lib/c16_gen.py), compiles them against the current tree, observes serde and the derived schema at run time (c16/common.rs), judges with jsonschema under python3-vt (lib/c16_check.py)"},
     {"name": "vmc", "path": "/verif/harness/src/bin/vmc.rs", "serves_properties": sorted(k for k in PROPS.keys() if k != "C16"),
